@@ -327,6 +327,11 @@ class Taint(Flow):
                         self.ctx.set_param(t.qname, t.params.index(name), k)
                 out = _join_ret(out, self.ctx.ret.get(t.qname))
             return out
+        if isinstance(f, ast.Attribute) and f.attr in ('append', 'extend', 'insert') \
+                and isinstance(f.value, ast.Name) and st.get(f.value.id) != RAW and any(aks):
+            # a JSON value / list is put into a list: the list now holds raw elements
+            st[f.value.id] = LST
+            return None
         if isinstance(f, ast.Attribute):
             rk = self.kind(f.value, st) if not isinstance(f.value, ast.Name) else st.get(f.value.id)
             if rk == RAW:
@@ -466,8 +471,15 @@ def _validated_keys(model, r):
         raise AnalysisError('anchor vanished: 4-tuple result of run_proofreader_options')
     keysets = []
     for n in iter_scope(f.node):
+        src = None
+        is_ext = False
         if isinstance(n, ast.AugAssign) and isinstance(n.target, ast.Name) and n.target.id == acc:
-            src = n.value
+            src, is_ext = n.value, True
+        elif isinstance(n, ast.Expr) and isinstance(n.value, ast.Call) \
+                and isinstance(n.value.func, ast.Attribute) and n.value.func.attr == 'extend' \
+                and isinstance(n.value.func.value, ast.Name) and n.value.func.value.id == acc and n.value.args:
+            src, is_ext = n.value.args[0], True
+        if is_ext:
             if not isinstance(src, ast.Name):
                 keysets.append(set())
                 continue
@@ -497,7 +509,7 @@ def _validated_keys(model, r):
             keysets.append(ks)
         elif isinstance(n, ast.Call) and isinstance(n.func, ast.Attribute) \
                 and isinstance(n.func.value, ast.Name) and n.func.value.id == acc \
-                and n.func.attr in ('append', 'extend', 'insert'):
+                and n.func.attr in ('append', 'insert'):
             keysets.append(set())
     if not keysets:
         return set()
